@@ -27,7 +27,7 @@ def main():
         if a.no_build:
             build_ok, build_log = True, ''
         else:
-            build_ok, build_log, _ = common.lean_build()
+            build_ok, build_log, _ = common.lean_build(pid)
         audit_res = common.audit(pid) if build_ok else None
         ctx = common.Ctx(pid, a.tier, seed, replay=a.replay)
         if a.replay:
